@@ -364,6 +364,20 @@ def check_law(law, expr, o, fresh):
                 f2 = outcome(lambda: fresh().fingerprint(copy.deepcopy(o2)))
                 if f2[0] == "ok" and f2[1] == fp[1]:
                     return f"the value under the reported key {k!r} differs ({cur!r} vs {new!r}) but the fingerprints are identical: {fp[1]!r}"
+        # the same dictionary OBJECT changed in place between two calls: the second fingerprint is that of its new contents
+        for k in sorted(ks[1]):
+            if any(p.isdigit() for p in k.split(".")):
+                continue
+            inst = fresh()
+            live = copy.deepcopy(o)
+            f_before = outcome(lambda: inst.fingerprint(live))
+            cur = get_dotted_key(k, live)
+            set_dotted_key(k, (cur + 1) if isinstance(cur, (int, float)) and not isinstance(cur, bool) else "changed", live)
+            f_after = outcome(lambda: inst.fingerprint(live))
+            f_fresh = outcome(lambda: fresh().fingerprint(copy.deepcopy(live)))
+            if f_before[0] == f_after[0] == f_fresh[0] == "ok" and f_after[1] != f_fresh[1]:
+                return f"after the caller changed {k!r} in place the fingerprint is still {f_after[1]!r}; an equal fresh dictionary gives {f_fresh[1]!r}"
+            break
         o3 = copy.deepcopy(o)
         o3["NEVER_MENTIONED"] = 1
         k3 = outcome(lambda: fresh().keys(copy.deepcopy(o3)))
